@@ -168,7 +168,7 @@ def run(ctx):
                    "what a converged increment computes is outside C10 (C11/C15/C17)"]
     ctx.assumptions = ["a non-converged increment surfaces as RuntimeError (as PythonSolver.solve raises)"]
     thm_ok = common.lean_stage(ctx, [("SrProps.C10", "SrProps/C10.lean", "SrProps.C10")])
-    drv = common.LeanDriver()
+    drv = common.LeanDriver(["SrModel.Adaptive"])
     configs = []
     for ndim in (1, 2, 3):
         for md in (1, 2, 3, 4):
